@@ -4,6 +4,7 @@
 import SonicModel.Lemmas.DomProof
 import SonicModel.Lemmas.MetaPack
 import SonicModel.Lemmas.NodeBound
+import SonicModel.Lemmas.DomParseProof
 namespace Sonic.Thm.C03
 open Sonic Gen Impl Spec
 
@@ -36,6 +37,30 @@ theorem meta_pack_unpack (k i l : BitVec 64) (hk : k < 8) (hi : i < 0x20000000) 
 theorem meta_idx_bound_tight :
     bvIdx (bvPack 4 0x20000000 2) ≠ 0x20000000 ∧ bvLen (bvPack 4 0x20000000 2) ≠ 2 :=
   pack_idx_overflow
+
+/-- **the decoding parser emits the tree the text denotes**: for every strictly well-formed document (RFC 8259, every string
+    decodable, every number finite) the model of `parse_value` / `parse_array` / `parse_object` (numbers through the digit
+    machine, strings through the decoder, containers by their loops; `Impl/DomParse.lean`) accepts and returns exactly the
+    specification's tree: same nesting, array order, members in source order with duplicates preserved, strings decoded,
+    numbers as their literals (whose classification and value are C07's) -/
+theorem dom_parser_emits_the_specification_tree (buf : Buf) (s e : Nat) (h : Spec.document true buf = some (s, e)) :
+    ∃ t, docTree false buf = some t ∧ DomP.document buf = some t :=
+  DomP.document_of_strict buf s e h
+
+/-- … value by value (any fuel that suffices for the grammar suffices for the parser) -/
+theorem dom_parser_on_wellformed_value (buf : Buf) (f w e : Nat) (h : Spec.value true f buf w = .ok e) :
+    ∃ t, tree false f buf w = some (t, e) ∧ ∀ c, buf[w]? = some c → DomP.dispatch f buf (some (c, w + 1)) = .ok t e :=
+  (DomP.parse_of_strict buf f).1 w e h
+
+/-- the digit machine accepts every number token of the grammar and stops exactly where the token ends -/
+theorem number_tokens_are_accepted (buf : Buf) (bound w e : Nat) (neg : Bool) (h : Spec.number buf w = some e) :
+    (parseNumber buf bound (if buf[w]? = some 45 then w + 1 else w) neg).2 = e ∧
+    (parseNumber buf bound (if buf[w]? = some 45 then w + 1 else w) neg).1 ≠ .invalid :=
+  DomP.parseNumber_of_number buf bound w e neg h
+
+/-- non-vacuity: `{"a":[1,{}],"a":null}` as text -/
+def exDoc : Buf := #[123, 34, 97, 34, 58, 91, 49, 44, 123, 125, 93, 44, 34, 97, 34, 58, 110, 117, 108, 108, 125]
+example : Spec.document true exDoc = some (0, 21) := by decide +kernel
 
 /-! non-vacuity: `{"a":[1,{}],"a":null}` -/
 def exTree : Json := .obj [([97], .arr [.num 5 6, .obj []]), ([97], .null)]
